@@ -599,3 +599,24 @@ for _m in [
     _ISET.append(_sp)
 INDEXED_SET['methods'] = _ISET
 SPECS['C11'] = SPECS['C11'] + _ISET
+
+# boltons.iterutils remap callbacks and get_path (round 3e, C08): OBJECT-GRAPH MODE, translated by harness/py2lean_c08.py
+# (notes/SRCTIE.md section "Object-graph mode").  Objects are references `V` into an abstract store `σ`, keys / path
+# segments are `K`; every duck-typed operation on an object is a field of the parameter record `PyRtC08.Ops σ V K`
+# (SPEC-DECLARED OPERATIONS); exceptions are values (class only).  `OptV` = the `_UNSET` sentinel or a value.
+# `static_false`: isinstance tests decided by the declared parameter type (a dotted-string path is outside the tie).
+_C08 = [
+    {'qualname': 'default_visit', 'params': {'path': 'Path', 'key': 'K', 'value': 'V'}, 'result': 'KV',
+     'tie_theorem': 'C08.src_default_visit_eq_model'},
+    {'qualname': 'default_enter', 'params': {'path': 'Path', 'key': 'K', 'value': 'V'}, 'result': 'EnterRes',
+     'tie_theorem': 'C08.src_default_enter_eq_model'},
+    {'qualname': 'default_exit', 'params': {'path': 'Path', 'key': 'K', 'old_parent': 'V', 'new_parent': 'V',
+                                             'new_items': 'Pairs'}, 'result': 'V',
+     'tie_theorem': 'C08.src_default_exit_eq_model'},
+    {'qualname': 'get_path', 'params': {'root': 'V', 'path': 'Path', 'default': 'OptV'}, 'result': 'V',
+     'sentinel': '_UNSET', 'static_false': [('path', 'str')], 'tie_theorem': 'C08.src_get_path_eq_model'},
+]
+for _sp in _C08:
+    _sp.update(module='boltons.iterutils', lean_name=_sp['qualname'], kind='function', raises=True,
+               translator='py2lean_c08', gen_file='iterutils_remap')
+SPECS['C08'] = _C08
